@@ -13,6 +13,7 @@ CONSTANTS Dg, Pg,          \* degree (number of coefficients) and number of dire
           Scalars,         \* catalogue of rational scalars <<n,d>> used as constants
           CmpScalars,      \* scalars used on the right of comparisons
           ReshapeCat,      \* catalogue of target element shapes for reshape
+          TileCat,         \* catalogue of repetition tuples for tile
           MaxLen,          \* length bound of a behaviour
           MaxObjs,         \* bound on the number of objects
           MaxAbs           \* magnitude bound on |num|, den of every heap cell (keeps TLC's 32-bit ints safe)
@@ -256,6 +257,76 @@ Sum(i, axis) ==
             Z == TLCEval([p \in 0..(Pg - 1) |-> [e \in 0..(Size(res) - 1) |-> SumSet(members(e), p)]])
         IN NewObj(FreshU(heap, res, Z), [a |-> "sum", i |-> i, axis |-> axis])
 
+\* ------------------------------------------------------------------ further slice-wise operations (fresh results)
+\* a fresh UTPM whose element e (0-based, C order over shape res) is Src(e): either <<"z">> (zero) or <<"s", source element>>
+Gather(i, res, Src(_), name, rec) ==
+  /\ CanGrow /\ i \in Us
+  /\ LET o == objs[i]
+         Z == TLCEval([p \in 0..(Pg - 1) |-> [e \in 0..(Size(res) - 1) |->
+                 LET s == Src(e) IN IF s[1] = "z" THEN SZero(Dg) ELSE Ser(heap, o, p, s[2])]])
+     IN NewObj(FreshU(heap, res, Z), rec)
+\* numpy.tile: reps is a sequence; both shapes are padded on the left with ones to the longer length
+Tile(i, reps) ==
+  /\ "tile" \in Acts /\ i \in Us
+  /\ LET es == ES(objs[i])  n == Max(Len(es), Len(reps))
+         pe == PadLeft(es, n)  pr == PadLeft(reps, n)
+         res == [a \in 1..n |-> pe[a] * pr[a]]
+     IN Gather(i, res, LAMBDA e : LET r == TLCEval(Unravel(e, res)) IN <<"s", Ravel([a \in 1..n |-> r[a] % pe[a]], pe)>>,
+               "tile", [a |-> "tile", i |-> i, reps |-> reps])
+\* numpy.diag: vector -> matrix with the vector on diagonal k;  square matrix -> its diagonal k
+Diag(i, k) ==
+  /\ "diag" \in Acts /\ i \in Us
+  /\ LET es == ES(objs[i]) IN
+     \/ /\ Len(es) = 1
+        /\ LET m == es[1] + Abs(k) IN
+           Gather(i, <<m, m>>, LAMBDA e : LET r == e \div m  c == e % m IN
+                                          IF c - r = k THEN <<"s", IF k >= 0 THEN r ELSE c>> ELSE <<"z">>,
+                  "diag", [a |-> "diag", i |-> i, k |-> k])
+     \/ /\ Len(es) = 2 /\ es[1] = es[2] /\ Abs(k) < es[1]
+        /\ Gather(i, <<es[1] - Abs(k)>>, LAMBDA e : <<"s", (IF k >= 0 THEN e ELSE e - k) * es[2] + (IF k >= 0 THEN e + k ELSE e)>>,
+                  "diag", [a |-> "diag", i |-> i, k |-> k])
+Tri(which, i, k) ==
+  /\ which \in Acts /\ i \in Us /\ Len(ES(objs[i])) = 2
+  /\ LET es == ES(objs[i]) IN
+     Gather(i, es, LAMBDA e : LET r == e \div es[2]  c == e % es[2] IN
+                              IF (which = "triu" /\ c - r >= k) \/ (which = "tril" /\ c - r <= k) THEN <<"s", e>> ELSE <<"z">>,
+            which, [a |-> which, i |-> i, k |-> k])
+TraceOp(i) ==
+  /\ "trace" \in Acts /\ CanGrow /\ i \in Us /\ Len(ES(objs[i])) = 2 /\ ES(objs[i])[1] = ES(objs[i])[2]
+  /\ LET o == objs[i]  n == ES(o)[1]
+         Z == TLCEval([p \in 0..(Pg - 1) |-> [e \in 0..0 |->
+                 LET acc[m \in 0..n] == IF m = 0 THEN SZero(Dg) ELSE SAdd(acc[m - 1], Ser(heap, o, p, (m - 1) * n + (m - 1))) IN acc[n]]])
+     IN NewObj(FreshU(heap, <<>>, Z), [a |-> "trace", i |-> i])
+\* zeros / ones of a given shape with the "data type" of polynomial i
+Const(which, i, res) ==
+  /\ which \in Acts /\ CanGrow /\ i \in Us
+  /\ LET Z == TLCEval([p \in 0..(Pg - 1) |-> [e \in 0..(Size(res) - 1) |-> IF which = "ones" THEN SOne(Dg) ELSE SZero(Dg)]])
+     IN NewObj(FreshU(heap, res, Z), [a |-> which, i |-> i, es |-> res])
+
+\* ------------------------------------------------------------------ complex-valued slice-wise operations
+\* (in the real instance conjugate / real are the identity and imag is zero)
+CplxOp(f, i) ==
+  /\ f \in Acts /\ CanGrow /\ i \in Us
+  /\ LET x == objs[i]
+         Z == TLCEval([p \in 0..(Pg - 1) |-> [e \in 0..(NE(x) - 1) |->
+                 LET s == Ser(heap, x, p, e) IN [d \in 1..Dg |-> CASE f = "conjugate" -> RConjS(s[d]) [] f = "real" -> RRe(s[d]) [] f = "imag" -> RIm(s[d])]]])
+     IN NewObj(FreshU(heap, ES(x), Z), [a |-> f, i |-> i])
+\* fft / ifft along the last axis for lengths 1, 2, 4 (the roots of unity are Gaussian integers): X_k = sum_j x_j w^(jk)
+Omega(n, m, inverse) ==        \* exp(-+ 2 pi i m / n) for n in {1, 2, 4}
+  LET mm == (((IF inverse THEN 0 - m ELSE m) % n) + n) % n
+      q == (mm * 4) \div n      \* quarter turns clockwise
+  IN CASE q = 0 -> ROne [] q = 1 -> RCx(RZero, RFrac(-1, 1)) [] q = 2 -> RFrac(-1, 1) [] q = 3 -> RCx(RZero, ROne)
+FFT(inverse, i) ==
+  /\ (IF inverse THEN "ifft" ELSE "fft") \in Acts /\ CanGrow /\ i \in Us /\ Len(ES(objs[i])) >= 1
+  /\ ES(objs[i])[Len(ES(objs[i]))] \in {1, 2, 4}
+  /\ LET x == objs[i]  es == ES(x)  n == es[Len(es)]
+         Z == TLCEval([p \in 0..(Pg - 1) |-> [e \in 0..(NE(x) - 1) |->
+                 LET k == e % n  base == e - k
+                     acc[j \in 0..n] == IF j = 0 THEN SZero(Dg)
+                                        ELSE SAdd(acc[j - 1], SScale(Omega(n, (j - 1) * k, inverse), Ser(heap, x, p, base + j - 1)))
+                 IN IF inverse THEN SScale(RFrac(1, n), acc[n]) ELSE acc[n]]])
+     IN NewObj(FreshU(heap, es, Z), [a |-> IF inverse THEN "ifft" ELSE "fft", i |-> i])
+
 \* ------------------------------------------------------------------ comparisons
 \* x rel y is the truth value of the NumPy comparison of the ZEROTH coefficients over all elements and directions
 Rel(rel, a, b) == CASE rel = "lt" -> RLt(a, b) [] rel = "le" -> RLe(a, b) [] rel = "gt" -> RLt(b, a) [] rel = "ge" -> RLe(b, a)
@@ -290,6 +361,12 @@ Next ==
         \/ Transpose(i)
         \/ \E nes \in ReshapeCat : Reshape(i, nes)
         \/ \E ax \in {None, 0, 1, -1, -2} : Sum(i, ax)
+        \/ \E reps \in TileCat : Tile(i, reps)
+        \/ \E k \in {-1, 0, 1} : Diag(i, k) \/ Tri("triu", i, k) \/ Tri("tril", i, k)
+        \/ TraceOp(i)
+        \/ \E f \in {"conjugate", "real", "imag"} : CplxOp(f, i)
+        \/ FFT(FALSE, i) \/ FFT(TRUE, i)
+        \/ \E res \in ReshapeCat : Const("zeros", i, res) \/ Const("ones", i, res)
         \/ \E rel \in {"lt", "le", "gt", "ge", "eq"} : (\E j \in 1..Len(objs) : CmpUU(rel, i, j)) \/ (\E c \in CmpScalars : CmpUS(rel, i, c))
 
 \* ------------------------------------------------------------------ properties of the design
